@@ -15,7 +15,7 @@ Ltac bsnorm_in H :=
          end.
 
 (* list-length arithmetic (byte and N are the same type; make that syntactic first) *)
-Ltac lens := unfold byte in *; repeat rewrite app_length in *; cbn [length] in *; lia.
+Ltac lens := unfold byte in *; do 4 (repeat rewrite app_length in *; cbn [length] in *); lia.
 
 (* the next byte, if any, does not satisfy P *)
 Definition nhd (P : byte -> bool) (r : list byte) : Prop :=
